@@ -53,10 +53,10 @@ func fullFieldsOdd(r *rand.Rand, g genRecord, declareDigest bool, odd bool) [][2
 	}
 	// declared digests in spellings the library does not support (unknown algorithm, no colon, empty)
 	if odd && !has["warc-payload-digest"] && r.Intn(14) == 0 {
-		f = append(f, [2]string{"WARC-Payload-Digest", pick(r, []string{"crc32:deadbeef", "sha3:00", "nocolon", "md5:", ":"})})
+		f = append(f, [2]string{"WARC-Payload-Digest", pick(r, []string{"crc32:deadbeef", "sha3:00", "nocolon", "md5:", ":", "sha1:" + strings.Repeat("A", 56), "md5:" + strings.Repeat("ab", 40), "sha1:" + strings.Repeat("QUJD", 12)})})
 	}
 	if odd && !declareDigest && !has["warc-block-digest"] && r.Intn(20) == 0 {
-		f = append(f, [2]string{"WARC-Block-Digest", pick(r, []string{"crc32:deadbeef", "whirlpool:00", "nocolon"})})
+		f = append(f, [2]string{"WARC-Block-Digest", pick(r, []string{"crc32:deadbeef", "whirlpool:00", "nocolon", "sha1:" + strings.Repeat("A", 48), "sha256:" + strings.Repeat("B", 104)})})
 	}
 	return f
 }
